@@ -111,6 +111,23 @@ func checkThreads(c Case) *pk.Failure {
 				}
 			}
 		}
+		// the repository's own test host received the same writes: it holds each of them exactly once and whole
+		// (compared only after a normal completion: after a failure cores may still be inside a write)
+		if c.FailKind == "" {
+			repo := multiset(strings.SplitAfter(strings.TrimSuffix(r.RepoOutput, "\n"), "\n"))
+			mine := map[string]int{}
+			for k, n := range multiset(r.Writes) {
+				mine[strings.TrimSuffix(k, "\n")+"\n"] += n
+			}
+			fixed := map[string]int{}
+			for k, n := range repo {
+				fixed[strings.TrimSuffix(k, "\n")+"\n"] += n
+			}
+			if d := diffMultiset(mine, fixed); d != "" && r.RepoOutput != "" {
+				return pk.Failf("threads", "host-output-differs", "%s (rep %d): the output collected by the repository's test host differs from the writes the cores made\n  %s\n%s", id, rep, d, c.Text)
+			}
+			pk.Extra("host-outputs-compared", 1)
+		}
 		// after a failure, cores that were still inside their quantum may have registered new cores
 		// behind the wait's back; they are cancelled and must be gone as goroutines (checked below)
 		if !r.Residue.LockFree || (c.FailKind == "" && r.Residue.Cores != 0) {
